@@ -122,34 +122,46 @@ Proof.
     destruct (Z.eqb_spec a 9223372036854775808) as [Ea|Ea], (Z.eqb_spec b 9223372036854775808) as [Eb|Eb]; intros H; lia.
 Qed.
 
-(* `i as f64` as computed by the model is the float that compares Equal to i (a fact about the
-   model's own arithmetic, used only for Int-against-Float keys) *)
-Definition int_bits_exact : Prop :=
-  forall x y, int_float_safe x = true -> f_ok y = true -> f_is_nan y = false ->
-    ifcmp_exact x y = Eq -> f64_bits_of_int x = fold0 y.
+Lemma finite_of_flags b : f_ok b = true -> f_is_nan b = false -> f_is_inf b = false -> f_finite b = true.
+Proof.
+  unfold f_finite, f_is_nan, f_is_inf. intros O N I. rewrite O. cbn [andb].
+  destruct (f_exp b =? 2047); [|reflexivity]. cbn [andb] in *. destruct (f_frac b =? 0); discriminate.
+Qed.
 
-Lemma cmp3_tt_kmatch (HI : int_bits_exact) x y : cmp3 CEq x y = Some TT -> kmatch x y = true /\ kmatch y x = true.
+Lemma norm_zero_fold a b : f_ok a = true -> f_ok b = true -> fold0 a = fold0 b -> norm_key (VFloat a) = norm_key (VFloat b).
+Proof.
+  unfold fold0. intros _ _. destruct (Z.eqb_spec a (2 ^ 63)) as [Ea|Ea], (Z.eqb_spec b (2 ^ 63)) as [Eb|Eb]; intros H; subst; try reflexivity; try (vm_compute; reflexivity).
+Qed.
+
+Lemma cmp3_tt_kmatch x y : cmp3 CEq x y = Some TT -> kmatch x y = true /\ kmatch y x = true.
 Proof.
   unfold cmp3, kmatch.
-  destruct x as [|a|a|a|a], y as [|b|b|b|b]; cbn [cmp_values norm_key nkey_eqb equal_coerce]; intros H; try discriminate.
-  - destruct (a ?= b) eqn:E; try discriminate. apply Z.compare_eq in E. subst. rewrite !Z.eqb_refl. split; reflexivity.
+  destruct x as [|a|a|a|a], y as [|b|b|b|b]; cbn [cmp_values equal_coerce]; intros H; try discriminate.
+  - destruct (a ?= b) eqn:E; try discriminate. apply Z.compare_eq in E. subst. cbn [norm_key nkey_eqb]. rewrite !Z.eqb_refl. split; reflexivity.
   - unfold ifcmp, if_partial_cmp in *. destruct (int_float_safe a) eqn:S; cbn [andb] in *; [|discriminate].
     rewrite (round53_small a S). destruct (f_ok b) eqn:O; cbn [andb] in *; [|discriminate].
     destruct (f_is_nan b) eqn:N; cbn [negb option_map] in *; [discriminate|].
     destruct (ifcmp_exact a b) eqn:E; try discriminate.
-    fold (fold0 b). rewrite (HI a b S O N E), Z.eqb_refl. split; reflexivity.
+    unfold ifcmp_exact in E. destruct (f_is_inf b) eqn:I; [destruct (f_sign b =? 0); discriminate|].
+    apply Z.compare_eq in E. cbn [norm_key]. rewrite (finite_of_flags b O N I), (round53_small a S), E.
+    cbn [nkey_eqb]. rewrite Z.eqb_refl. split; reflexivity.
   - unfold ifcmp, if_partial_cmp in *. destruct (int_float_safe b) eqn:S; cbn [andb] in *; [|discriminate].
     rewrite (round53_small b S). destruct (f_ok a) eqn:O; cbn [andb] in *; [|discriminate].
     destruct (f_is_nan a) eqn:N; cbn [negb option_map] in *; [discriminate|].
     destruct (ifcmp_exact b a) eqn:E; try discriminate.
-    fold (fold0 a). rewrite (HI b a S O N E), Z.eqb_refl. split; reflexivity.
+    unfold ifcmp_exact in E. destruct (f_is_inf a) eqn:I; [destruct (f_sign a =? 0); discriminate|].
+    apply Z.compare_eq in E. cbn [norm_key]. rewrite (finite_of_flags a O N I), (round53_small b S), E.
+    cbn [nkey_eqb]. rewrite Z.eqb_refl. split; reflexivity.
   - unfold f_partial_cmp. destruct (fcmp a b) as [c|] eqn:E; cbn [option_map] in H; [|discriminate].
     destruct c; try discriminate. rewrite (fcmp_eq_sym a b E).
     unfold fcmp in E. destruct (f_ok a) eqn:Oa; [|discriminate]. destruct (f_ok b) eqn:Ob; [|discriminate].
     destruct (f_is_nan a); [discriminate|]. destruct (f_is_nan b); [discriminate|]. cbn in E.
     inversion E as [E1]. apply Z.compare_eq in E1.
-    fold (fold0 a). fold (fold0 b). rewrite (fkey_fold a b Oa Ob E1), Z.eqb_refl. split; reflexivity.
-  - destruct (bytes_cmp a b) eqn:E; try discriminate. apply bytes_cmp_eq in E. subst.
+    rewrite (norm_zero_fold a b Oa Ob (fkey_fold a b Oa Ob E1)).
+    assert (forall k, nkey_eqb k k = true) as R.
+    { intros [v|v|v|v|]; cbn; try apply Z.eqb_refl; try reflexivity; [apply zlist_eqb'_eq; reflexivity|destruct v; reflexivity]. }
+    rewrite R. split; reflexivity.
+  - destruct (bytes_cmp a b) eqn:E; try discriminate. apply bytes_cmp_eq in E. subst. cbn [norm_key nkey_eqb].
     assert (zlist_eqb' b b = true) as R by (apply zlist_eqb'_eq; reflexivity). rewrite R. split; reflexivity.
   - destruct a, b; cbn in H; try discriminate; split; reflexivity.
 Qed.
@@ -157,7 +169,7 @@ Qed.
 Lemma kmatch_not_null a b : kmatch a b = true -> a <> VNull /\ b <> VNull.
 Proof. unfold kmatch. intros H. apply andb_true_iff in H. destruct H as [_ H]. destruct a, b; cbn in H; try discriminate; split; discriminate. Qed.
 
-Lemma hw_keys_complete (HI : int_bits_exact) lw e (l r : row) :
+Lemma hw_keys_complete lw e (l r : row) :
   length l = lw ->
   forallb (is_cross_key lw) (conjuncts e) = true ->
   passes e (l ++ r) = true ->
@@ -181,8 +193,8 @@ Proof.
     destruct (sem3_cross lw l r i j li ri Hl CK) as [a [b [Ha [Hb Hs]]]]. cbn [fst snd].
     destruct Hs as [Hs|Hs]; rewrite Hs in P; destruct a as [x|]; try discriminate; destruct b as [y|]; try discriminate;
       exists x, y; (split; [exact Ha|split; [exact Hb|]]).
-    - destruct (cmp3 CEq x y) as [[]|] eqn:E; try discriminate. apply (cmp3_tt_kmatch HI x y E).
-    - destruct (cmp3 CEq y x) as [[]|] eqn:E; try discriminate. apply (cmp3_tt_kmatch HI y x E). }
+    - destruct (cmp3 CEq x y) as [[]|] eqn:E; try discriminate. apply (cmp3_tt_kmatch x y E).
+    - destruct (cmp3 CEq y x) as [[]|] eqn:E; try discriminate. apply (cmp3_tt_kmatch y x E). }
   unfold hw_key_match. apply andb_true_iff. split; [apply andb_true_iff; split|].
   - apply negb_true_iff. apply not_true_is_false. intros X. unfold null_key in X. apply existsb_exists in X.
     destruct X as [i [Hi X]]. apply in_map_iff in Hi. destruct Hi as [k [Hk1 Hk2]]. subst i.
@@ -213,7 +225,7 @@ Proof.
   destruct (cross_key lw k); [discriminate|reflexivity].
 Qed.
 
-Lemma hw_cond_is_on (HI : int_bits_exact) lw qual on (L R : table) (l r : row) :
+Lemma hw_cond_is_on lw qual on (L R : table) (l r : row) :
   Forall (fun l => length l = lw) L ->
   same_side_on lw qual on = false ->
   (forall e, on = Some e -> pred_ok e (pairs_of L R)) ->
@@ -234,7 +246,7 @@ Proof.
       apply negb_false_iff in Hss. exact Hss. }
     rewrite (pure_cross_nonempty lw e Hp Hall).
     destruct (passes e (l ++ r)) eqn:P.
-    + apply (hw_keys_complete HI lw e l r); auto.
+    + apply (hw_keys_complete lw e l r); auto.
     + destruct (hw_key_match (cross_keys lw (equi_keys e)) l r) eqn:M; [|reflexivity].
       rewrite (hw_keys_sound lw e l r Hlen Hall D M) in P. discriminate.
   - apply ev_ok with (rows := pairs_of L R); [apply Hev; reflexivity|apply in_pairs; assumption].
@@ -255,7 +267,7 @@ Proof.
 Qed.
 
 (* ------------------------------------------------------------------ the theorem *)
-Theorem hw2_correct_l : int_bits_exact ->
+Theorem hw2_correct_l :
   forall jt lw rw qual on w sel (L R : table) t s,
   let q := mkq [(lw, L); (rw, R)] [(jt, on)] w sel in
   cls_sql q qual = 0 ->
@@ -266,7 +278,7 @@ Theorem hw2_correct_l : int_bits_exact ->
   query_spec q = Some s ->
   t = s.
 Proof.
-  intros HI jt lw rw qual on w sel L R t s q Hc HW Hon Hw Hm Hs.
+  intros jt lw rw qual on w sel L R t s q Hc HW Hon Hw Hm Hs.
   unfold hw_model, q in Hm. cbn [q_tabs q_joins q_sel q_where] in Hm.
   unfold cls_sql, q in Hc. cbn [q_tabs q_joins] in Hc.
   set (on' := opt_on jt on) in *.
@@ -275,7 +287,7 @@ Proof.
   destruct (pair_defined on' L R) eqn:Hdef; [|discriminate].
   unfold hw2 in Hm. fold on' in Hm.
   rewrite (join_rows_ext_in jt lw rw (hw_cond lw qual on') (pair_tt on') L R) in Hm.
-  2:{ intros l r Hl Hr. apply (hw_cond_is_on HI lw qual on' L R l r); auto. }
+  2:{ intros l r Hl Hr. apply (hw_cond_is_on lw qual on' L R l r); auto. }
   destruct (hw_status lw qual on' w (join_rows jt lw rw (pair_tt on') L R) L R) as [|p|p]; [|destruct p; discriminate|discriminate].
   destruct w as [e|].
   - destruct (defined_on e (join_rows jt lw rw (pair_tt on') L R)); [|discriminate].
